@@ -12,7 +12,9 @@ NA_REASONS = {
     'C01': 'Behaviour at every instant against zic: the oracle (zic applied to the Zone/Rule source) is not in the '
            'repository and no abstract domain in reach bounds what the 14-month transition search returns; every '
            'structural clause of it is the subject of another property with the right oracle (C12 tables, C09/C11 '
-           'well-formedness, C08 caches, C04 helper agreement, C05 affine clause). See DESIGN.md section C01.',
+           'well-formedness, C08 caches, C04 helper agreement, C05 affine clause). The nearest decided statements are C04-R11 / R12: '
+           'the extended processor, interpreted in full, agrees with the repository\'s own Python reference on model zones and on a '
+           'sample of shipped zones - but that reference is not zic, and nothing in the repository is. See DESIGN.md section C01 and 10.8.',
 }
 
 BASELINE = ('cd /repo && /venv/bin/python -m pytest -ra -q -p no:cacheprovider --timeout=900 '
